@@ -319,7 +319,7 @@ func (r *runner) hostile(ci *codecInfo, st *opState, o *op, i int) {
 // announce and the codec accepts (snappy: 32-bit preamble; zstd: the decoder is
 // built with WithDecoderMaxMemory(MaxInt32), the largest parquet page).
 func formatLimit(codec string) uint64 {
-	switch codec {
+	switch baseCodec(codec) {
 	case "snappy":
 		return 1<<32 - 1
 	case "zstd":
@@ -344,7 +344,7 @@ func allocTolerated(codec string, src []byte) uint64 {
 // beyond the format's limit is told apart from a runaway growth loop.
 func allocClass(codec string, src []byte) string {
 	if d := declaredSize(codec, src); d > formatLimit(codec) && d > allocBound(len(src)) {
-		return "alloc-declared-size-" + codec
+		return "alloc-declared-size-" + baseCodec(codec)
 	}
 	return "unbounded-allocation"
 }
